@@ -30,6 +30,8 @@ RV_CORPUS = [
     ("misaligned-with-cache", "lui x3, 4\nsw x3, 0(x3)\nlw x1, 1(x3)\naddi x2, x0, 2\n"),
     # stores that spill into the next word (legal without a data cache) and stores through a negative effective address
     ("spilling-stores", "lui x3, 4\nli x1, 0x11223344\nsw x1, 0(x3)\nsw x1, 4(x3)\nsw x1, 2(x3)\nsh x1, 7(x3)\nsw x1, 9(x3)\nsb x1, 12(x3)\nsw x1, -4(x0)\nsw x3, -4(x0)\nlw x5, 4(x3)\n"),
+    # aligned loads and stores whose effective address is negative as a plain integer sum (wraps to the top of memory)
+    ("negative-addresses", "lui x3, 4\nsw x3, -4(x0)\nlw x1, -4(x0)\nsh x1, -8(x0)\nlbu x2, -1(x0)\naddi x4, x0, -16\nsw x1, 4(x4)\nlw x5, -12(x0)\nsw x1, 0(x3)\n"),
     # four conflicting blocks in one set, then hits in the middle of the recency order
     ("middle-hits", "lui x3, 4\nlw x1, 0(x3)\nlw x2, 64(x3)\nlw x4, 128(x3)\nlw x5, 192(x3)\nlw x6, 64(x3)\nlw x7, 128(x3)\nlw x8, 0(x3)\nsw x8, 64(x3)\nlw x9, 256(x3)\nlw x10, 64(x3)\n"),
 ]
@@ -109,24 +111,38 @@ def run_to(kind, text, mode, cache, schedule, stop):
     return n, observe(sim), raw
 
 
+def clean_baseline(kind, text, mode, cache, stop, names):
+    """The run WITHOUT inspection calls, observed at `stop`: one separate run per inspection function, so that no
+    answer of the baseline has any inspection call behind it (not even the probe's own earlier calls)."""
+    n, _obs, raw = run_to(kind, text, mode, cache, {}, stop)
+    obs = []
+    for nm in names:
+        sim = make(kind, text, mode, cache)
+        k = 0
+        while not ((stop is not None and k >= stop) or k >= MAXSTEPS or not advance(sim, kind, mode)):
+            k += 1
+        obs.append((nm, canon(insp.functions(sim)[nm]())))
+    return n, tuple(obs), raw
+
+
 def shard_fn(shard):
     kind, pname, text, mode, cache, bound, part, parts = shard
     p = Partial()
-    nsteps, base_final, base_raw = run_to(kind, text, mode, cache, {}, None)
     names = list(insp.functions(make(kind, text, mode, cache)))
+    nsteps, base_final, base_raw = clean_baseline(kind, text, mode, cache, None, names)
     tag = f"{kind}/{pname}/{mode}/{cache}"
     probes = {}
 
     def baseline(j):
         if j not in probes:
-            probes[j] = run_to(kind, text, mode, cache, {}, j)
+            probes[j] = clean_baseline(kind, text, mode, cache, j, names)
         return probes[j]
 
     def run_dev(schedule, desc, size, last):
-        """The deviated run is probed (all inspection functions) one step after its last deviation and at the end, and
+        """The deviated run is probed (all inspection functions) in the step of its last deviation, one step after it and at the end, and
         compared with the uninspected run probed at the same points."""
         bad = None
-        for stop in sorted({min(last + 1, nsteps), None}, key=lambda x: (x is None, x)):
+        for stop in sorted({min(last, nsteps), min(last + 1, nsteps), None}, key=lambda x: (x is None, x)):
             n, obs, raw = run_to(kind, text, mode, cache, schedule, stop)
             bn, bobs, braw = baseline(stop) if stop is not None else (nsteps, base_final, base_raw)
             p.evaluations += 1
@@ -182,11 +198,12 @@ def replay(case):
     corpus = dict(TOY_CORPUS if kind == "toy" else RV_CORPUS + RV_MORE)
     text = corpus[pname]
     schedule = {int(k): v for k, v in case["schedule"].items()}
-    nsteps, base_final, _raw = run_to(kind, text, mode, cache, {}, None)
+    names = list(insp.functions(make(kind, text, mode, cache)))
+    nsteps, base_final, _raw = clean_baseline(kind, text, mode, cache, None, names)
     last = case.get("last", max(schedule))
-    for stop in (min(last + 1, nsteps), None):
+    for stop in (min(last, nsteps), min(last + 1, nsteps), None):
         n, obs, _r = run_to(kind, text, mode, cache, schedule, stop)
-        bn, bobs, _br = run_to(kind, text, mode, cache, {}, stop)
+        bn, bobs, _br = clean_baseline(kind, text, mode, cache, stop, names)
         if n != bn or obs != bobs:
             return [(dict(oracle="inspection-purity", field="later-result-changed"), f"{kind}/{pname}/{mode}/{cache}: schedule {schedule} changes a later result")]
     return []
@@ -194,12 +211,12 @@ def replay(case):
 
 def run(ctx):
     thorough = not ctx.quick
-    ctx.rule = ("Baseline = run without inspection calls. Deviations: one inspection function called once or twice after step i, for every function x every "
+    ctx.rule = ("Baseline = run without inspection calls, observed by one separate run per inspection function (no answer of the baseline has an inspection call behind it). Deviations: one inspection function called once or twice after step i, for every function x every "
                 "step index (bound 1); all ordered pairs of different functions on a step grid (bound 2, thorough); plus the saturated schedule (every "
                 "function twice after every step, the GUI's behaviour). Corpus: programs with loads/stores through caches, conflict misses, ecalls, a loop, "
                 "a call, a fault, hazards, a misaligned access x {single-cycle, five-stage, five-stage without hazard detection} x 4 cache configurations; "
-                "TOY programs stepped by whole steps and by half cycles. Oracle (observables only): every deviated run is probed with ALL inspection functions one step "
-                "after its last deviation and at the end, and must equal the uninspected run probed at the same points; a difference in raw internal state with "
+                "TOY programs stepped by whole steps and by half cycles. Oracle (observables only): every deviated run is probed with ALL inspection functions in the step of its last deviation, one step "
+                "after it and at the end, and must equal the uninspected run probed at the same points; a difference in raw internal state with "
                 "equal observables (say, a filled representation cache) is counted, not reported. The saturated schedule is applied up to every step index. Non-trivial = program with more than one step.")
     ctx.assumptions += ["wall-clock fields and the two timing lines of the metrics text are masked"]
     shards = []
@@ -212,8 +229,9 @@ def run(ctx):
             caches = list(CACHES) if thorough else [list(CACHES)[k % nc], list(CACHES)[(k + 1) % nc], list(CACHES)[(k + 3) % nc]]
             k += 1
             for cache in caches:
-                for part in range(4):
-                    shards.append(("riscv", pname, text, mode, cache, 2 if thorough and len(text) < 160 else 1, part, 4))
+                parts = 4 if thorough else 1
+                for part in range(parts):
+                    shards.append(("riscv", pname, text, mode, cache, 2 if thorough and len(text) < 160 else 1, part, parts))
     for pname, text in TOY_CORPUS:
         for mode in ("whole", "half"):
             for part in range(2):
